@@ -10,6 +10,7 @@ coherent KeyedSet (one item per key under the same key function).
 from __future__ import annotations
 
 import itertools
+import typing
 
 from hypothesis import strategies as st
 
@@ -103,7 +104,8 @@ class Universe:
 
     def alias(self):
         KS = env()["KeyedSet"]
-        return {"self": KS[str, str], "selfint": KS[int, int], "tuple": KS[tuple, str], "list": KS[list, str], "spec": KS[env()["It"], str]}[self.name]
+        # ("self": the ITEM type also admits floats - the bad item 7.5 is refused for its key, which is no str)
+        return {"self": KS[typing.Union[str, float], str], "selfint": KS[int, int], "tuple": KS[tuple, str], "list": KS[list, str], "spec": KS[env()["It"], str]}[self.name]
 
     def bad_items(self):
         return {
